@@ -297,11 +297,24 @@ Fixpoint timeouts_ok (evs : list val) (generous : bool) : bool :=
   | _ :: t => timeouts_ok t generous
   end.
 
+(* A failed reply write logs why it failed: 0 the server side had closed the socket, 1 the peer (reset /
+   gone), 2 the write deadline had ALREADY passed when the server set it.  The LTS leaves a failing write
+   on an open socket to the environment (the peer); the code sets the deadline to now + WriteTimeout, so a
+   deadline that is in the past when it is set is not a behaviour of the code, however long the handler
+   took: such a log is rejected, and the verdict counts it as a started handler whose reply was not
+   delivered. *)
+Fixpoint writes_ok (evs : list val) : bool :=
+  match evs with
+  | [] => true
+  | VL [VI code; _; VI a; VI b] :: t => negb ((code =? 9) && (a =? 0) && (b =? 2)) && writes_ok t
+  | _ :: t => writes_ok t
+  end.
+
 Definition run_lifecycle (a : list val) : val :=
   match a with
   | [VI kz; VL _script; VL evs] =>
       let k := cfg_of kz in
-      match (if timeouts_ok evs false then parse_events evs else None) with
+      match (if timeouts_ok evs false && writes_ok evs then parse_events evs else None) with
       | None => v_bad
       | Some l =>
           match fst (dfs (40 * 100)%nat k l init ([], (200 * 100)%nat)) with
@@ -422,6 +435,8 @@ Definition verdict_lifecycle_C17 (a : list val) (o : val) : N :=
           (* graceful shutdown: a Shutdown given a generous context returns by itself (nil, or the listener's
              close error), it does not sit until the context expires *)
           else if negb (timeouts_ok evs false) then VIOLATES
+          (* every started handler's reply is written: the server does not give its own write an expired deadline *)
+          else if negb (writes_ok evs) then VIOLATES
           else
           (* accounting *)
           if negb (accept_counts_ok k nconn [] l) then VIOLATES
